@@ -1254,7 +1254,8 @@ def judge_loop_end(rep, results, problems):
     """control phases must behave; the after_end phase is F51: stuck => KNOWN-FINDING if (and only if) the predicate is
     listed in known_findings.json, RunFinishedError => fine (fixed), anything else => VIOLATION"""
     entry = known_finding_entry(F51_PREDICATE)
-    summary = {"runs": len(results), "stuck": 0, "refused_with_RunFinishedError": 0, "known_entry": bool(entry)}
+    summary = {"runs": len(results), "stuck": 0, "refused_with_RunFinishedError": 0, "known_entry": bool(entry),
+               "reached_call_in_every_stuck_run": True}
     for msg in problems:
         rep.violation(msg, {"kind": "harness", "scenario": "c14_loopend"}, no_input=True)
     for r in results:
@@ -1274,7 +1275,10 @@ def judge_loop_end(rep, results, problems):
             rep.violation(f"loop-end scenario ({tag}): the call was not abandoned as intended", replay)
             continue
         oc = ph["after_end"]["outcome"]
-        if oc[0] == "stuck":
+        if not ph["after_end"].get("reached_call"):
+            # not F51: the abandoned worker never got as far as from_thread.run/run_sync - untagged
+            rep.violation(f"loop-end scenario ({tag}): the abandoned worker never reached the call-back (outcome {oc})", replay)
+        elif oc[0] == "stuck":
             summary["stuck"] += 1
             if entry:
                 rep.known_finding(f"{entry['what']} [{entry['id']}, predicate {F51_PREDICATE}]")
